@@ -124,6 +124,7 @@ def run(chk, tier):
             g.feat |= {"try", "halt", "catchall"}
             g.exns = g.exns or ["Ex0", "Ex1", "Ex2"]
         aprogs.append(g.program("as%d" % i))
+    aprogs += [q for q in fixedprogs.fixed_regressions(with_assert=True) if q["id"].startswith("R5")]
     fam_lo = progcheck.Family(chk, aprogs, "assert-kept", workers=vlib.NCPU, timeout=1500)
     fam_hi = progcheck.Family(chk, aprogs, "assert-deleted", workers=vlib.NCPU, timeout=1500, delassert=True)
     lo_levels = [q for q in levels if q < 2]
